@@ -7,6 +7,7 @@ import ClarabelModel.Chordal.MergePC
 import ClarabelModel.Chordal.MergeCG
 import ClarabelModel.Chordal.Valid
 import ClarabelModel.Chordal.Filled
+import ClarabelModel.Chordal.CGCheck
 
 open Clarabel Clarabel.Chordal Driver
 
@@ -113,6 +114,38 @@ def analysisHyp (kv : KV) : String :=
     s!"filled={fmtBool L.filledB} perm={fmtBool (clOrderingPerm L.n ordering)} edges={fmtBool (L.edgesInB ordering edges)}"
   | _, _, _ => "bad-request"
 
+/-- channel `cg.trace`: the clique-graph strategy pass by pass on the tree of `L`:
+    `initialise`, then every pass of the loop of `merge_cliques`.  Per state: the merge candidate
+    (`cr`,`cc`; `noParent` when none), `dm` = merged?, `ncl`, `nnz`, `dg` = digest of the whole
+    state (edge matrix, `p`, adjacency table, clique sets), `inv` = index of the first failing
+    clause of the loop invariant `CGInv` (`0` = holds).  Finally `rip` = the supernodes of the
+    tree returned by `merge_cliques` are pairwise disjoint (`cgRipB`) and `ne` = the live ones are
+    not empty (`cgNonemptyB`): the two tested hypotheses of
+    `C17.analysis_clique_graph_valid_partial` -/
+def cgTrace (kv : KV) : String :=
+  match parseLPat kv with
+  | some L =>
+    match SuperNodeTree.new L with
+    | .error e => fmtErr e
+    | .ok t0 =>
+      if t0.nCliques ≤ 1 then s!"steps=0 rip={fmtBool (cgRipB L)} ne={fmtBool (cgNonemptyB L)}" else
+      match CGStrategy.mergeTrace t0 with
+      | .error e => fmtErr e
+      | .ok (_, _, tr) =>
+        let N := t0.snode.size
+        let cr := tr.map (fun x => match x.cand with | some c => c.1 | none => noParent)
+        let cc := tr.map (fun x => match x.cand with | some c => c.2 | none => noParent)
+        let dm := tr.map (fun x => x.doMerge)
+        let ncl := tr.map (fun x => x.t.nCliques)
+        let nnz := tr.map (fun x => x.s.edges.nzval.size)
+        let dg := tr.map (fun x => x.digest.toNat)
+        let inv := tr.map (fun x =>
+          match (cgInvClauses N L.n x.s x.t).findIdx? (fun p => !p.2) with
+          | some i => i + 1
+          | none => 0)
+        s!"steps={tr.size} cr={fmtNats cr} cc={fmtNats cc} dm={fmtBools dm} ncl={fmtNats ncl} nnz={fmtNats nnz} dg={fmtNats dg} inv={fmtNats inv} rip={fmtBool (cgRipB L)} ne={fmtBool (cgNonemptyB L)}"
+  | none => "bad-request"
+
 def handle (ch : String) (kv : KV) : String :=
   match ch with
   | "dsu.ops" =>
@@ -159,6 +192,7 @@ def handle (ch : String) (kv : KV) : String :=
   | "analysis.cg" => (analysis kv).1
   | "tree.valid" => (treeValid kv).1
   | "hyp.analysis" => analysisHyp kv
+  | "cg.trace" => cgTrace kv
   | _ => "unknown-channel"
 
 end DriverC17
